@@ -52,9 +52,10 @@ Verdict(e) == CASE e.ev = "small" -> SmallVerdict(e)
                 [] OTHER -> "unknown_event"
 
 (* outside the statement: exact duplicates in a whitelist (which index is "that barcode's"?), a whitelist  *)
-(* spread over two files of one alias, a query whose length is not the whitelist length                    *)
+(* spread over two files of one alias, a query whose length is not the whitelist length or that contains   *)
+(* a letter outside ACGTN (the placeholder row XXXXXX of the merged index lists)                            *)
 Outside(e) == CASE e.ev = "small" -> e.nfiles > 1 \/ HasDup(e.wl)
-                [] e.ev = "q"     -> Dup \/ Comparable(W.w, e.q) = {}
+                [] e.ev = "q"     -> Dup \/ Comparable(W.w, e.q) = {} \/ (\E i \in DOMAIN e.q : e.q[i] \notin 1 .. 5)
                 [] OTHER -> FALSE
 
 TInit == l = 1 /\ W = [alias |-> "", w |-> <<>>] /\ K = 0 /\ Dup = FALSE
